@@ -488,7 +488,7 @@ func genConfig(r rng, seed uint64, id string, merge bool) *sdl.Program {
 			if merge {
 				// precedence family: fields never make the start fail
 				cf.Optional, cf.Validate = true, ""
-				if cf.Menu == "sum" || cf.Menu == "mul" || cf.Menu == "nested" || cf.Menu == "indirect" || cf.Menu == "prefixStructV" || cf.Menu == "sumDef2" {
+				if cf.Menu == "sum" || cf.Menu == "mul" || cf.Menu == "nested" || cf.Menu == "indirect" || cf.Menu == "prefixStructV" || cf.Menu == "sumDef2" || cf.Menu == "cmp" || cf.Menu == "tern" || cf.Menu == "concat" || cf.Menu == "affine" || cf.Menu == "and" || cf.Menu == "mod" {
 					cf.Menu, cf.Keys, cf.GoType = "prefixStruct", []string{"sim.sub"}, "struct"
 				}
 			}
@@ -560,7 +560,27 @@ func genConfig(r rng, seed uint64, id string, merge bool) *sdl.Program {
 func genConf(r rng, field string) *sdl.Conf {
 	c := &sdl.Conf{Field: field, GoType: "int"}
 	c.Embed = embedChain(r, 0.15)
-	switch r.IntN(12) {
+	switch r.IntN(15) {
+	case 12:
+		// comparison / conjunction into a bool field
+		if r.p(0.5) {
+			c.Menu, c.Keys, c.GoType = "cmp", []string{pick(r, cfgLeafInts[:3]), pick(r, cfgLeafInts[:3])}, "bool"
+		} else {
+			c.Menu, c.Keys, c.GoType, c.Default = "and", []string{pick(r, cfgLeafInts[:3]), pick(r, cfgLeafStrs[:1])}, "bool", fmt.Sprint(r.n(1, 9))
+		}
+	case 13:
+		// conditional / three-operand arithmetic / remainder
+		switch r.IntN(3) {
+		case 0:
+			c.Menu, c.Keys = "tern", []string{pick(r, cfgLeafInts[:3]), pick(r, cfgLeafInts[:3]), pick(r, cfgLeafInts[:3])}
+		case 1:
+			c.Menu, c.Keys = "affine", []string{pick(r, cfgLeafInts[:3]), pick(r, cfgLeafInts[:3]), pick(r, cfgLeafInts[:3])}
+		default:
+			c.Menu, c.Keys = "mod", []string{pick(r, cfgLeafInts[:3])}
+		}
+	case 14:
+		// string concatenation inside an expression
+		c.Menu, c.Keys, c.GoType = "concat", []string{pick(r, cfgLeafStrs), pick(r, cfgLeafStrs)}, "string"
 	case 11:
 		// two placeholders, each with its own default; one of the keys is usually absent
 		ks := []string{pick(r, []string{"gone.a", "gone.b", pick(r, cfgLeafInts[:3])}), pick(r, cfgLeafInts[:3])}
@@ -613,13 +633,14 @@ func genConf(r rng, field string) *sdl.Conf {
 		c.Optional = r.p(0.8)
 	}
 	if c.GoType == "int" && r.p(0.3) {
-		c.Validate = pick(r, []string{"min=3", "max=5", "required", "min=2 max=7", "gte=1", "gte=0", "max=20", "omitempty min=3", "omitempty gte=2 max=7", "max=8 omitempty min=4"})
+		c.Validate = pick(r, []string{"min=3", "max=5", "required", "min=2 max=7", "gte=1", "gte=0", "max=20", "omitempty min=3", "omitempty gte=2 max=7", "max=8 omitempty min=4",
+			"gt=2", "lt=6", "gt=1 lt=9", "eq=5", "ne=3", "omitempty ne=4", "lte=4"})
 	}
 	if c.GoType == "structV" && c.Validate != "struct" {
 		c.Validate = ""
 	}
 	if c.GoType == "string" && r.p(0.3) {
-		c.Validate = pick(r, []string{"eq=va", "required", "ne=vb", "omitempty eq=va"})
+		c.Validate = pick(r, []string{"eq=va", "required", "ne=vb", "omitempty eq=va", "len=2", "len=3", "min=3", "max=1", "min=2 max=4", "omitempty len=4"})
 	}
 	return c
 }
@@ -661,7 +682,7 @@ func GenerateTwins(seed uint64, idFlat, idEmb string) (*sdl.Program, *sdl.Progra
 		for fi := 0; fi < r.n(0, 2); fi++ {
 			cf := genConf(r, fmt.Sprintf("C%d", fi))
 			cf.Optional, cf.Validate, cf.Embed = true, "", nil
-			if cf.Menu == "sum" || cf.Menu == "mul" || cf.Menu == "nested" || cf.Menu == "indirect" || cf.Menu == "prefixStructV" || cf.Menu == "sumDef2" {
+			if cf.Menu == "sum" || cf.Menu == "mul" || cf.Menu == "nested" || cf.Menu == "indirect" || cf.Menu == "prefixStructV" || cf.Menu == "sumDef2" || cf.Menu == "cmp" || cf.Menu == "tern" || cf.Menu == "concat" || cf.Menu == "affine" || cf.Menu == "and" || cf.Menu == "mod" {
 				cf.Menu, cf.Keys, cf.Default, cf.GoType = "valueDef", []string{pick(r, cfgLeafInts)}, "1", "int"
 			}
 			if len(p.Scanners) != 0 && r.p(0.35) {
